@@ -263,8 +263,12 @@ class Interp:
             v = self.ev(e.operand, env, fi)
             if isinstance(e.op, ast.Not):
                 return not self.truth(v)
-            if isinstance(e.op, ast.USub):
+            if isinstance(e.op, ast.USub) and isinstance(v, (int, float)):
                 return -v
+            if isinstance(e.op, ast.Invert) and isinstance(v, bool):
+                return not v
+            if isinstance(e.op, (ast.Invert, ast.USub, ast.UAdd)):
+                return _Opaque("unary")  # array arithmetic in a constructor: irrelevant to the dispatch
         if isinstance(e, ast.IfExp):
             return self.ev(e.body if self.truth(self.ev(e.test, env, fi)) else e.orelse, env, fi)
         if isinstance(e, ast.Compare):
